@@ -327,3 +327,71 @@ def replay_pre_check(bname, model, meta):
     return {'confirmed': (ss.PFlow.converged is False) and err is not None, 'pflow_converged': bool(ss.PFlow.converged),
             'eig_run_result': r, 'exception': err,
             'native_cmd': 'kundur_full: PQ.p0[0]=1e6; PFlow.run() fails; EIG.run() -> exception from TDS.init'}
+
+
+def calc_as(pid):
+    """EIG.calc_As: the state matrix is the reduction (contract of EIG._reduce) of exactly dae.fx, dae.fy, dae.gx, dae.gy, dae.Tf in this
+    order, taken after the zero-time-constant states have been identified; without such states this is the returned and stored
+    matrix; with them it is kept as Asc and the returned matrix is the reduction of what EIG._reorder hands back."""
+    from pyvc.symval import Mark
+    RED = z3.Function('reduce_result', M.Mat, M.Mat, M.Mat, M.Mat, z3.ArraySort(I, R), M.Mat)
+    RED2 = fresh('reduce_of_reordered', M.Mat)
+
+    def find(ex, st, args, kw, node):
+        st.ghost['order'] = st.ghost['order'] + ['find_zero_states']
+        st.store('self.zstate_idx', TArr(kind='int').make(st, 'zstate_idx_found'))       # find_zero_states writes the list (own contract)
+        return None
+
+    def reduce_h(ex, st, args, kw, node):
+        st.ghost['order'] = st.ghost['order'] + ['_reduce']
+        if len(args) == 1 and isinstance(args[0], tuple) and args[0][0] == 'star':
+            ok = isinstance(args[0][1], Mark) and args[0][1].kind == 'reordered' and not kw
+            ex.oblige(st, 'pre@call:_reduce(*self._reorder())', z3.BoolVal(bool(ok)), {})
+            return Opaque(RED2)
+        ok = len(args) == 5 and all(isinstance(a, Opaque) for a in args[:4]) and isinstance(args[4], Ref) and set(kw) <= {'dense'}
+        ex.oblige(st, 'pre@call:_reduce(fx,fy,gx,gy,Tf,dense=dense)', z3.BoolVal(bool(ok)), {})
+        if not ok:
+            raise Unsupported('_reduce call shape')
+        if 'dense' in kw:
+            ex.oblige(st, 'pre@call:_reduce:dense-passed-on', z3.BoolVal(kw['dense'] is st.env['dense']), {})
+        return Opaque(RED(args[0].term, args[1].term, args[2].term, args[3].term, st.content(args[4]).vals))
+
+    def reorder(ex, st, args, kw, node):
+        st.ghost['order'] = st.ghost['order'] + ['_reorder']
+        ex.oblige(st, 'pre@call:_reorder:after-the-unreordered-matrix-is-stored-in-self.As', z3.BoolVal(bool(isinstance(st.load('self.As'), Opaque) and st.load('self.As').term.eq(st.ghost.get('first')))) if st.ghost.get('first') is not None else z3.BoolVal(True), {})
+        return Mark('reordered')
+
+    def np_array(ex, st, args, kw, node):
+        return Mark('names')
+
+    def post(old, new, res):
+        d = 'self.system.dae.'
+        first = RED(old.get(d + 'fx').term, old.get(d + 'fy').term, old.get(d + 'gx').term, old.get(d + 'gy').term, old.arr(d + 'Tf').vals)
+        nz = new.st.content(new.st.load('self.zstate_idx')).n
+        order = new.st.ghost['order']
+        as_ = new.get('self.As').term
+        plain = z3.And(res.term == first, as_ == first, z3.BoolVal(order == ['find_zero_states', '_reduce']))
+        zero = z3.And(res.term == RED2, as_ == RED2, new.get('self.Asc').term == first,
+                      z3.BoolVal(order == ['find_zero_states', '_reduce', '_reorder', '_reduce']))
+        return z3.If(nz > 0, zero, plain)
+    d = 'self.system.dae.'
+    c = Contract(FE, 'EIG.calc_As', pid=pid, params={'self': TObj(), 'dense': TBool()},
+                 schema={d + 'fx': M.MatT, d + 'fy': M.MatT, d + 'gx': M.MatT, d + 'gy': M.MatT, d + 'Tf': TArr(), d + 'x_name': TSeq(TStr.sort),
+                         'self.zstate_idx': TArr(kind='int'), 'self.As': M.MatT, 'self.Asc': M.MatT},
+                 ghost_init={'order': []},
+                 calls={'self.find_zero_states': find, 'self._reduce': reduce_h, 'self._reorder': reorder, 'np.array': np_array},
+                 ensures=[('As=reduce(dae.fx,dae.fy,dae.gx,dae.gy,dae.Tf)-after-find_zero_states;reordered-reduction-when-zero-time-constants-exist', post)],
+                 modifies=['self.As', 'self.Asc', 'self.x_name', 'self.zstate_idx'])
+    c.star_ok = True
+    c.merge = False
+    return c
+
+
+def replay_calc_as(obligation=None, model=None, meta=None):
+    """native: eigenvalues reported on stock cases against a dense NumPy reference built from the assembled matrices and the models' own
+    time constants (contracts/bounded_eig_ref.py)"""
+    from contracts import bounded_eig_ref
+    n, bad = bounded_eig_ref.run()
+    if bad:
+        return {'confirmed': True, 'inputs': bad, 'observed': bad.get('observed'), 'native_cmd': 'contracts/bounded_eig_ref.py'}
+    return {'confirmed': False, 'tried': n}
